@@ -718,7 +718,11 @@ impl Worterbuch {
             WorterbuchError::SerDeError(e, "Error parsing JSON during import".to_owned())
         })?;
         debug!("Done. Merging nodes …");
-        let imported_values = self.store.merge(store.data);
+        let (imported_values, ls_subscribers) = self.store.merge(store.data);
+
+        if !ls_subscribers.is_empty() {
+            self.notify_ls_subscribers(ls_subscribers).await;
+        }
 
         for (key, (val, changed)) in &imported_values {
             if *changed {
